@@ -266,7 +266,7 @@ DoExcludePair      == \E n \in Nodes : ExcludePair(n)
 DoExcludeTriplet   == \E n \in Nodes : ExcludeTriplet(n)
 DoExhausted        == \E n \in Nodes : Exhausted(n)
 DoSelectForSigning == \E n \in Nodes : SelectForSigning(n)
-DoReevaluate       == \E n \in Nodes : \E r \in 0..retry : Reevaluate(n, r)
+DoReevaluate       == \E nr \in Nodes \X (0..retry) : Reevaluate(nr[1], nr[2])
 
 Next == \/ DoTooMany \/ DoExcludeSingle \/ DoExcludePair \/ DoExcludeTriplet
         \/ DoExhausted \/ DoSelectForSigning \/ NextRetry \/ DoReevaluate
